@@ -604,6 +604,12 @@ class Sym:
     def __complex__(self):
         raise Unsupported('symbolic value coerced through complex() (lost by the trace)')
 
+    def __round__(self, ndigits=None):
+        # rounding is some function of the value (only congruence is known to the solver)
+        if self.is_int:
+            return self
+        return Sym(uninterpreted('round%s' % ('' if ndigits is None else ndigits))(self.t))
+
     def __bool__(self):
         return ctx().decide(self.t != 0)
 
@@ -795,7 +801,12 @@ def ite(c, a, b):
     if isinstance(a, (SymC, complex, np.complexfloating)) or isinstance(b, (SymC, complex, np.complexfloating)):
         a, b = as_symc(a), as_symc(b)
         return SymC(ite(c, a.re, b.re), ite(c, a.im, b.im))
-    ta, tb = lift(a), lift(b)
+    def _l(v, other):
+        # keep integer sort when merging a python int with an Int-sorted term
+        if isinstance(v, (int, np.integer)) and not isinstance(v, (bool, np.bool_)) and isinstance(other, Sym) and other.is_int:
+            return z3.IntVal(int(v))
+        return lift(v)
+    ta, tb = _l(a, b), _l(b, a)
     if _is_int_term(ta) != _is_int_term(tb):
         ta = z3.ToReal(ta) if _is_int_term(ta) else ta
         tb = z3.ToReal(tb) if _is_int_term(tb) else tb
